@@ -61,17 +61,25 @@ func (p *Prog) specSig(fn *ssa.Function) *SpecDef {
 	if res.Len() == 1 {
 		sd.Ret = p.w.SortOf(res.At(0).Type())
 	} else {
-		dn := "Tup_" + name
-		var sb strings.Builder
-		fmt.Fprintf(&sb, "(declare-datatypes ((%s 0)) (((mk_%s", dn, dn)
+		// one tuple datatype per result signature (shared by all functions with these result sorts)
+		dn := "Tup"
+		for i := 0; i < res.Len(); i++ {
+			dn += "_" + sortIdent(p.w.SortOf(res.At(i).Type()))
+		}
 		for i := 0; i < res.Len(); i++ {
 			s := p.w.SortOf(res.At(i).Type())
 			sel := fmt.Sprintf("%s_%d", dn, i)
 			sd.Tuple = append(sd.Tuple, FieldInfo{Name: fmt.Sprint(i), Sel: sel, S: s, T: res.At(i).Type()})
-			fmt.Fprintf(&sb, " (%s %s)", sel, s.S)
 		}
-		sb.WriteString("))))")
-		p.w.addDecl(dn, sb.String())
+		if _, ok := p.w.decls[dn]; !ok {
+			var sb strings.Builder
+			fmt.Fprintf(&sb, "(declare-datatypes ((%s 0)) (((mk_%s", dn, dn)
+			for _, f := range sd.Tuple {
+				fmt.Fprintf(&sb, " (%s %s)", f.Sel, f.S.S)
+			}
+			sb.WriteString("))))")
+			p.w.addDecl(dn, sb.String())
+		}
 		sd.Ret = mkSort(dn)
 	}
 	p.specs[name] = sd
@@ -200,7 +208,7 @@ func (p *Prog) ensureSpec(name string) {
 			for _, v := range r.vals {
 				ts = append(ts, fr.term(v))
 			}
-			t = App("mk_Tup_"+name, sd.Ret, ts...)
+			t = App("mk_"+sd.Ret.S, sd.Ret, ts...)
 		} else {
 			t = fr.term(r.vals[0])
 		}
@@ -236,7 +244,7 @@ func (p *Prog) ensureSpec(name string) {
 }
 
 // specDefsFor emits definitions of all spec functions reachable from the given names, in dependency order.
-func (p *Prog) specDefsFor(roots map[string]bool) (string, []string) {
+func (p *Prog) specDefsFor(roots map[string]bool, uninterp bool) (string, []string) {
 	// closure
 	need := map[string]bool{}
 	rawNeed := map[string]bool{}
@@ -348,6 +356,19 @@ func (p *Prog) specDefsFor(roots map[string]bool) (string, []string) {
 		if !rec {
 			sd := p.specs[comp[0]]
 			fmt.Fprintf(&sb, "(define-fun %s %s %s)\n", sd.Name, sig(sd), bodyStr(sd))
+			continue
+		}
+		if uninterp {
+			// recursive spec functions as uninterpreted symbols: the query carries ground instances
+			// of their defining equations instead (sound: fewer hypotheses)
+			for _, n := range comp {
+				sd := p.specs[n]
+				var ps []string
+				for _, prm := range sd.Params {
+					ps = append(ps, prm.S.S)
+				}
+				fmt.Fprintf(&sb, "(declare-fun %s (%s) %s)\n", sd.Name, strings.Join(ps, " "), sd.Ret.S)
+			}
 			continue
 		}
 		sb.WriteString("(define-funs-rec (")
@@ -619,6 +640,7 @@ func (p *Prog) verifyFunc(name string) *Exec {
 			}
 		}
 		env := &Env{fr: fr, vars: vars, st: r.st, old: ex.entry, oldVars: ex.entryParams}
+		env.dbgHead = fn.Blocks[r.blk] // local variables that dominate the return may be named in ensures
 		retLabel := fmt.Sprintf("ret%d", ri+1)
 		if c != nil {
 			for i, cl := range c.Ensures {
@@ -783,6 +805,8 @@ type lemmaInfo struct {
 	l     *Lemma
 	obl   *Obligation
 	axiom *Term
+	trigHead string // the lemma is only offered to queries that mention this symbol
+	needs    []string
 }
 
 func (p *Prog) buildLemmas() {
@@ -830,8 +854,15 @@ func (p *Prog) buildLemmas() {
 		if l.Trigger != nil {
 			trig := Subst(fr.evalTerm(l.Trigger, env), subst)
 			li.axiom = mkQuantPat(bvars, body, trig)
+			li.trigHead = trig.Head
 		} else {
 			li.axiom = Forall(bvars, body)
+			// without a trigger: offered only to queries that already talk about all its spec functions
+			collectSyms([]*Term{goal}, func(t *Term) {
+				if _, ok := p.specs[t.Head]; ok && len(t.Args) > 0 {
+					li.needs = append(li.needs, t.Head)
+				}
+			})
 		}
 		for _, u := range ex.unsupported {
 			fmt.Fprintln(os.Stderr, "lemma", l.Name+":", u)
@@ -849,11 +880,47 @@ func (p *Prog) lemmaObligations() []*Obligation {
 	return out
 }
 
-func (p *Prog) lemmaAxioms() []*Term {
+// lemmaAxiomsFor: the lemmas whose trigger symbol occurs in the given assertions.
+func (p *Prog) lemmaAxiomsFor(asserts []*Term) []*Term {
 	p.buildLemmas()
+	heads := map[string]bool{}
+	direct := map[string]bool{}
+	collectSyms(asserts, func(t *Term) { heads[t.Head] = true; direct[t.Head] = true })
+	// symbols reachable through the definitions of the spec functions mentioned
+	changed := true
+	for changed {
+		changed = false
+		for h := range heads {
+			if sd, ok := p.specs[h]; ok {
+				for _, d := range append(append([]string{}, sd.Deps...), sd.RawDeps...) {
+					if !heads[d] {
+						heads[d] = true
+						changed = true
+					}
+				}
+			}
+		}
+	}
 	var out []*Term
 	for _, li := range p.lemmas {
-		out = append(out, li.axiom)
+		if li.l.CheckOnly {
+			continue
+		}
+		if li.trigHead != "" {
+			if heads[li.trigHead] {
+				out = append(out, li.axiom)
+			}
+			continue
+		}
+		all := len(li.needs) > 0
+		for _, n := range li.needs {
+			if !direct[n] {
+				all = false
+			}
+		}
+		if all {
+			out = append(out, li.axiom)
+		}
 	}
 	return out
 }
